@@ -122,6 +122,11 @@ func propC07(c *ctx) error {
 		{[][2]string{{"t", `<template :define="card-a">A</template><template :define="card-b">B</template><ul><li :range="_, k : ks" :insert="card-${k}">x</li></ul>`}}, "t", `<ul><li>A</li><li>B</li><li>A</li></ul>`, ""},
 		{[][2]string{{"t", `<template :define="card-a">A</template><template :define="card-b">B</template><p :range="_, k : ks" :replace="card-${k}">x</p>|<p :range="_, k : ks"><i :with="j := ${k}" :insert="${'card-'}${j}">x</i></p>`}}, "t", `ABA|<p><i>A</i></p><p><i>B</i></p><p><i>A</i></p>`, ""},
 		{[][2]string{{"t", `<template :define="card-a">A</template><ul><li :range="_, k : ks" :insert="card-${k}">x</li></ul>`}}, "t", "", "tplNotFound"},
+		// the directive attributes may be written with white space around `=` (the scanner accepts it): still directives
+		{[][2]string{{"t", `<p :define = "f">F</p>[<q :insert = "f">o</q>]`}}, "t", `[<q>F</q>]`, ""},
+		{[][2]string{{"t", "<p :define\n=\n\"f\">F</p>[<q :replace\t=\"f\">o</q>]"}}, "t", `[F]`, ""},
+		{[][2]string{{"t", `<p :define= 'f'>F</p>[<q :insert ='f'>o</q>]`}}, "t", `[<q>F</q>]`, ""},
+		{[][2]string{{"u", `[<q :insert="f">o</q>]`}, {"t", `<template :define  =  "f"><i>x</i></template>`}}, "u", `[<q><i>x</i></q>]`, ""},
 		// an unknown name is a template-not-found error on every kind of host, also one whose own tags are not printed
 		{[][2]string{{"t", `<t:block :insert="nope">x</t:block>`}}, "t", "", "tplNotFound"},
 		{[][2]string{{"t", `<div :insert="nope" :remove="tag">x</div>`}}, "t", "", "tplNotFound"},
@@ -358,7 +363,50 @@ func propC16(c *ctx) error {
 	if err := c16Builtins(c, r); err != nil {
 		return err
 	}
-	return c16Names(c, r)
+	if err := c16Names(c, r); err != nil {
+		return err
+	}
+	return c16Order(c)
+}
+
+// c16Order: the bindings of one `with` are evaluated in the order in which they are written, in EVERY execution: functions
+// with side effects see that order, and when several values fail it is always the first one whose failure is reported.
+func c16Order(c *ctx) error {
+	res := c.res
+	src := `<p :with="a := ${next()}; b := ${next()}; c := ${next()}; d := ${next()}" :text="${a}-${b}-${c}-${d}">o</p>`
+	bad := `<p :with="a := ${nope1}; b := ${nope2}; c := ${1 / zero}; d := ${nope4}">o</p>`
+	m := html.NewTplManager()
+	if err := m.Add("t", strings.NewReader(src)); err != nil {
+		res.SelfTest = append(res.SelfTest, "C16 order template does not load: "+err.Error())
+		return nil
+	}
+	m.Add("bad", strings.NewReader(bad))
+	firstErr := ""
+	for i, n := 0, c.n(200, 5000); i < n; i++ {
+		t, _ := m.GetTemplate("t")
+		k := 0
+		var sb strings.Builder
+		err := t.Execute(&sb, map[string]any{"next": func() int { k++; return k }})
+		res.S3Checked++
+		res.count("with_order_executions")
+		if err != nil || sb.String() != "<p>1-2-3-4</p>" {
+			res.violate(J{"tpl": src, "execution": i + 1}, "<p>1-2-3-4</p>", J{"out": sb.String(), "err": fmt.Sprint(err)}, "the bindings of one with are not evaluated in written order in every execution")
+			break
+		}
+		tb, _ := m.GetTemplate("bad")
+		var sb2 strings.Builder
+		err2 := tb.Execute(&sb2, map[string]any{"zero": 0})
+		es := fmt.Sprint(err2)
+		if firstErr == "" {
+			firstErr = es
+		}
+		if err2 == nil || es != firstErr || !strings.Contains(es, "nope1") {
+			res.violate(J{"tpl": bad, "execution": i + 1}, firstErr, es, "which of several failing with-values is reported differs from one execution to the next (or is not the first)")
+			break
+		}
+	}
+	res.eval("with-order", true, J{"tpl": src})
+	return nil
 }
 
 // c16Names: histories over templates whose blocks use identifiers of every alphabet (non-ASCII letters, one-letter names,
